@@ -5,7 +5,7 @@ NOTES = ("All checks are property-based tests / fuzz targets over the real go-dc
 NOT_APPLICABLE = {}
 META = {
     "C09": dict(
-        technique="exhaustive enumeration + rapid property-based testing against a partition validity predicate; membership histories on one discovery object; leader-numbered groups with RPC fault injection; generated membership-event placements (closing / pending / reopening) on a real stream with a live-stream-set oracle",
+        technique="exhaustive enumeration + rapid property-based testing against a partition validity predicate; membership histories on one discovery object; leader-numbered groups with RPC fault injection; generated membership-event placements (closing / pending / reopening) on a real stream with a live-stream-set oracle; static members numbered through the configuration defaults / environment overrides",
         text="Every (N,T) pair with 1<=T<=N<=1024 is enumerated in the thorough tier (quick: N<=256, 512, 1024) and every "
              "member's set inspected against the partition predicate (non-empty, contiguous, ascending, disjoint, exact cover, "
              "sizes differ by at most 1, pure); member selection goes through the real static VBucketDiscovery. The space the "
@@ -109,7 +109,7 @@ META = {
         note="simnode is the trusted server model; R and the failover log are generated independently (a real server constrains them more).",
     ),
     "C11": dict(
-        technique="rapid-generated notification bursts placed by barriers (close / delay / reopen) in child processes, trace oracle (bracket grammar, counts, ranges, offsets, timing lower bound) + schedule stress; stateful rebalance histories with a live-stream-set oracle",
+        technique="rapid-generated notification bursts placed by barriers (close / delay / reopen) in child processes, trace oracle (bracket grammar, counts, ranges, offsets, timing lower bound) + schedule stress; stateful rebalance histories with a live-stream-set oracle; generated assignment / leader hand-over sequences through the real serviceDiscovery and event bus onto a real stream (interruption-count oracle)",
         text="The harness owns the schedule at CloseStream, OpenStream and the lifecycle callbacks and measures the placements inside the delay; "
              "the library's own goroutine race (finish-token waiter vs. reopen), which it does not own, is attacked statistically by thousands "
              "of zero-delay rebalances under scheduling pressure (static and dynamic membership). Three defects found here were repaired "
@@ -143,7 +143,7 @@ META = {
         note="Interface-level fakes; Couchbase-backend load failures are covered on the wire in C20.",
     ),
     "C19": dict(
-        technique="exhaustive enumeration of the 2^5 round patterns + generated round sequences / Stop placements, each a child process with a scripted Ping; real Dcp.Start() stopped by Close / signal / stream ends with a ping-after-stop oracle",
+        technique="exhaustive enumeration of the 2^5 round patterns + generated round sequences / Stop placements, each a child process with a scripted Ping; real Dcp.Start() stopped by Close / signal / stream ends with a ping-after-stop oracle; generated overlapping Stop() calls from several goroutines around an in-flight ping",
         text="The fail-stop is a panic on a library goroutine, so every case is a process; ping timestamps, exit status and Stop() latency are "
              "compared with the statement. The select race 'tick vs. cancel' is provoked with a 100 us interval.",
         note="One-sided timing bounds with >= 10 % slack around the library's hard-coded 1 s retry wait.",
